@@ -28,11 +28,33 @@ def _acceptable(v: int):
         raise SelfCheckFailure(f"PacketSeqCtrl stores {p.seq_count} for the provided count {v}")
 
 
+class _Bystander:
+    """a second provider alive in the same process (programs keep one per APID / per file): its own sequence is
+    0, 1, 2, … modulo 2^width whatever the provider under observation does, and calling it does not disturb that one
+    (whose values are compared with the model as before)"""
+
+    def __init__(self, prov, width: int, what: str):
+        self.prov, self.width, self.what, self.k = prov, width, what, 0
+
+    def call(self):
+        v = int(self.prov.get_and_increment())
+        if v != self.k % (1 << self.width):
+            raise SelfCheckFailure(f"{self.what} (width {self.width}) used next to the provider of this line returned {v} "
+                                   f"on its call #{self.k + 1}, not {self.k % (1 << self.width)}")
+        self.k += 1
+
+
 def op_seq_mem_run(a):
     w, n = a["width"], a["n_calls"]
+    wb = 3 if w != 3 else 2
+    other = _Bystander(SeqCountProvider(wb), wb, "a second SeqCountProvider") if n % 2 else None
     p = SeqCountProvider(w)
+    if other is None:
+        other = _Bystander(SeqCountProvider(wb), wb, "a second SeqCountProvider")
     vals = []
     for i in range(n):
+        if i < 12 or i == n // 2 or i >= n - 3:
+            other.call()
         v = next(p) if i % 2 else p.get_and_increment()
         vals.append(int(v))
     if w <= 14:
@@ -81,10 +103,14 @@ def op_seq_file_run(a):
         if a["initial"] is not None:
             path.write_bytes(a["initial"].encode("ascii"))
         prov = FileSeqCountProvider(w, path)
+        wb = 2 if w != 2 else 3
+        other = _Bystander(FileSeqCountProvider(wb, path.with_name("other-" + FILE_NAME)), wb, "a second FileSeqCountProvider on another file")
         results: List[Any] = []
         peeks: List[Any] = []
         files: List[Any] = []
         for i, st in enumerate(a["steps"]):
+            if i < 6 or i == len(a["steps"]) - 1:
+                other.call()
             if st == "call":
                 r = _outcome((lambda: next(prov)) if i % 2 else prov.get_and_increment)
                 if isinstance(r, int) and w <= 14:
